@@ -938,17 +938,29 @@ example :
     okBytes r1.2 = none ∧ okBytes (BufFile.read chanOpsX r1.1 (some 4)).2 = some "abcd".toUTF8.toList := by
   decide +kernel
 
-/-- KNOWN FINDING `exception-drops-data:read()`: `read()` keeps what it has fetched in a local; when a later
-    fetch raises, those bytes are gone — the retried read() starts at `c`. -/
-theorem read_all_drops_data_on_exception_witness :
+/-- repaired in /repo 3937ccc: `read()` retried after the exception returns the whole stream -/
+example :
     let r1 := BufFile.read chanOpsX (wX "rb") none
-    okBytes r1.2 = none ∧ okBytes (BufFile.read chanOpsX r1.1 none).2 = some "cdefgh".toUTF8.toList := by
+    okBytes r1.2 = none ∧ okBytes (BufFile.read chanOpsX r1.1 none).2 = some "abcdefgh".toUTF8.toList := by
   decide +kernel
 
-/-- KNOWN FINDING `exception-drops-data:readline`: the same for `readline()` (and `__next__`) -/
-theorem readline_drops_data_on_exception_witness :
+/-- … and so does `readline()` -/
+example :
     let r1 := readline chanOpsX (wX "rb") none
-    okBytes r1.2 = none ∧ okBytes (readline chanOpsX r1.1 none).2 = some "cdefgh".toUTF8.toList := by
+    okBytes r1.2 = none ∧ okBytes (readline chanOpsX r1.1 none).2 = some "abcdefgh".toUTF8.toList := by
+  decide +kernel
+
+/-- LEGACY (before 3937ccc): `read()` kept what it had fetched in a local; when a later fetch raised, those
+    bytes were gone — the retried read() started at `c`. -/
+theorem legacy_read_all_drops_data_on_exception_witness :
+    let r1 := readAllOld chanOpsX (wX "rb")
+    okBytes r1.2 = none ∧ okBytes (readAllOld chanOpsX r1.1).2 = some "cdefgh".toUTF8.toList := by
+  decide +kernel
+
+/-- LEGACY (before 3937ccc): the same for `readline()` (and `__next__`) -/
+theorem legacy_readline_drops_data_on_exception_witness :
+    let r1 := readlineOld chanOpsX (wX "rb") none
+    okBytes r1.2 = none ∧ okBytes (readlineOld chanOpsX r1.1 none).2 = some "cdefgh".toUTF8.toList := by
   decide +kernel
 
 end PV.Props.C42
